@@ -18,19 +18,6 @@ TOKENS = [b"syntax", b"=", b"\"proto3\"", b";", b"package", b"a.b", b"import", b
           b"repeated", b"enum", b"E", b"A", b"0", b"oneof", b"o", b"map", b"<", b">", b",", b"string", b"service", b"S", b"rpc", b"returns", b"stream", b"extensions",
           b"to", b"max", b"reserved", b"extend", b"optional", b"group", b"G"]
 
-TEMPLATES = [
-    [b"syntax", b"=", b"\"proto3\"", b";", b"package", b"a", b".", b"b", b";", b"message", b"M", b"{", b"int32", b"f", b"=", b"1", b";", b"repeated", b"string", b"g", b"=", b"2",
-     b"[", b"json_name", b"=", b"'x\\n'", b"]", b";", b"}"],
-    [b"syntax", b"=", b"\"proto2\"", b";", b"message", b"M", b"{", b"optional", b"bytes", b"b", b"=", b"1", b"[", b"default", b"=", b"\"\\x00\\377\\u00e9\"", b"]", b";",
-     b"extensions", b"100", b"to", b"max", b";", b"optional", b"double", b"d", b"=", b"2", b"[", b"default", b"=", b"-", b"1.5e3", b"]", b";", b"}", b"extend", b"M", b"{",
-     b"optional", b"int32", b"e", b"=", b"0x64", b";", b"}"],
-    [b"syntax", b"=", b"\"proto3\"", b";", b"enum", b"E", b"{", b"A", b"=", b"0", b";", b"B", b"=", b"01", b";", b"}", b"service", b"S", b"{", b"rpc", b"R", b"(", b"M", b")",
-     b"returns", b"(", b"stream", b"M", b")", b";", b"}", b"message", b"M", b"{", b"map", b"<", b"string", b",", b"E", b">", b"m", b"=", b"1", b";", b"oneof", b"o", b"{",
-     b"int32", b"x", b"=", b"2", b";", b"}", b"}"],
-    [b"edition", b"=", b"\"2023\"", b";", b"option", b"features", b".", b"field_presence", b"=", b"IMPLICIT", b";", b"message", b"M", b"{", b"int32", b"f", b"=", b"1", b";", b"}"],
-]
-
-
 def render(rng, toks, adversarial):
     out = [rng.choice([b"", b"", b"\xef\xbb\xbf"]) if adversarial else b""]
     for t in toks:
